@@ -1233,7 +1233,19 @@ impl State {
                 _ => "bad-op".into(),
             },
             ["decq", h] => match unhex(h) {
-                Some(b) => self.decode_line(&b).split(' ').next().unwrap().to_string(),
+                Some(b) => {
+                    // "in bounded time": decoding, displaying, inspecting and re-encoding a frame is linear work; the
+                    // budget is generous (2 s plus 3 s per MiB, against about 0.1 s per MiB on the unchanged tree) so that
+                    // only a change of complexity class can exceed it
+                    let t0 = std::time::Instant::now();
+                    let a = self.decode_line(&b).split(' ').next().unwrap().to_string();
+                    let ms = t0.elapsed().as_millis() as u64;
+                    if ms > 2_000 + 3 * (b.len() as u64 >> 10) {
+                        format!("{} slow", a)
+                    } else {
+                        a
+                    }
+                }
                 None => "bad-op".into(),
             },
             _ => "bad-op".into(),
